@@ -6,7 +6,7 @@ prop("C14", pkg="c14",
           "generic map types with values failing half-way under all 8 flag subsets; (5) number literals into interfaces under all 16 subsets of UseNumber/"
           "UseBigInt/UseInt64/UseUint64: dynamic type by the documented precedence and exact numeric value. TrustRawMessage only with valid raw messages. "
           "Non-trivial = flags differ from the default and the type has a map, RawMessage, string or interface (numbers: any flag set); distinct = FNV-64 of the case.",
-     quick=dict(shards=16, scale=1, timeout=900),
+     quick=dict(shards=16, scale=1.5, timeout=900),
      thorough=dict(shards=16, rounds=8, scale=1.5, timeout=3000),
      technique="rapid property-based metamorphic testing over flag subsets (default-flag output, encoding/json generic decode, literal numeric value as oracles)",
      level_text="Exploration: metamorphic relations between flag settings checked on a few hundred thousand generated values per quick run, all 8 AppendFlags "
